@@ -326,7 +326,7 @@ fn run(args: &Args, rep: &mut Report) {
             prop_par(
                 name,
                 args.seed,
-                tier.pick(20_000, 500_000),
+                tier.pick(20_000, 2_000_000),
                 move || arb_case(no_color),
                 |case, acc: &mut Acc| {
                     acc.class(&format!("choice-{:?}", choice_of(case.choice)));
